@@ -911,6 +911,36 @@ def _recursive(repo, unknown):
     return bad
 
 
+def _ancestors_of(repo, ci, seen=None):
+    seen = seen if seen is not None else set()
+    if ci.key in seen:
+        return seen
+    seen.add(ci.key)
+    for b in ci.bases:
+        r = repo.resolve_dotted(ci.module, b)
+        if r and r[0] == "class":
+            _ancestors_of(repo, r[1], seen)
+        elif not (r and r[0] == "class"):
+            seen.add("?" + b)   # a base outside the repository
+    return seen
+
+
+def _unrelated_class(repo, m, node, cls):
+    """`node` lies in a method of a class of module m whose hierarchy is fully inside the repository and disjoint from `cls`'s."""
+    p = getattr(node, "_parent", None)
+    while p is not None and not isinstance(p, ast.ClassDef):
+        p = getattr(p, "_parent", None)
+    if p is None:
+        return False
+    k = m.classes.get(p.name)
+    if k is None or k.node is not p:
+        return False
+    if k is cls:
+        return False
+    a, b = _ancestors_of(repo, k), _ancestors_of(repo, cls)
+    return cls.key not in a and k.key not in b
+
+
 def _still_referenced(repo, fi):
     name = fi.name
     for m in repo.modules.values():
@@ -920,6 +950,8 @@ def _still_referenced(repo, fi):
             if isinstance(x, ast.Name) and x.id == name and isinstance(x.ctx, ast.Load):
                 return True
             if isinstance(x, ast.Attribute) and x.attr == name:
+                if fi.cls is not None and isinstance(x.value, ast.Name) and x.value.id in ("self", "cls") and _unrelated_class(repo, m, x, fi.cls):
+                    continue   # self.<name> inside a class that neither inherits from nor is inherited by the helper's class
                 return True
             if isinstance(x, ast.ImportFrom) and any(a.name == name for a in x.names):
                 return True
